@@ -47,9 +47,11 @@ func builtTwins(c pairCase, recs []wm.Rec, cons []dns.RR, quiet bool) ([]dns.RR,
 	}
 	restore()
 	wide, respelled := false, false
+	wideTypes := map[string]bool{}
 	for i, rr := range built {
 		if !reflect.DeepEqual(ipLens(rr), ipLens(cons[i])) {
 			wide = true
+			wideTypes[typeName(recs[i].Type)] = true
 		} else if !reflect.DeepEqual(rr, cons[i]) {
 			respelled = true
 		}
@@ -61,6 +63,11 @@ func builtTwins(c pairCase, recs []wm.Rec, cons []dns.RR, quiet bool) ([]dns.RR,
 	if !quiet {
 		if wide {
 			pbt.Class("built:ipv4-in-16-octets")
+			for _, tn := range []string{"A", "L32", "IPSECKEY", "AMTRELAY", "SVCB", "HTTPS"} {
+				if wideTypes[tn] {
+					pbt.Class("built:ipv4-in-16-octets:" + tn)
+				}
+			}
 		}
 		if respelled {
 			pbt.Class("built:name-respelled")
